@@ -300,14 +300,16 @@ def kernelCallOk (k : Bool × Bool) : Bool := k.1 && k.2
 
 /-- ordered libc events of one `.pyx` kernel body, cdef helpers expanded, in execution order of the straight-line
 prefix: `"srand:seed"` (`srand` of the int parameter `seed`), `"srand:other"`, `"rand"` (a `rand()` or a helper
-that calls it).  The kernel is admissible when the first event is `srand(seed)` and there is no second `srand`. -/
+that calls it), `"pyrand"` (a numpy / python / torch generator used inside the kernel).  The kernel is admissible
+when the first event is `srand(seed)`, there is no second `srand`, and nothing but libc draws follows. -/
 def pyxSrandFirst (evs : List String) : Bool :=
   evs.head? == some "srand:seed" &&
     (evs.filter fun e => e == "srand:seed" || e == "srand:other").length == 1
 
 /-- the generated `.pyx` table `(kernel, events)`: every kernel seeds first and does draw -/
 def pyxTableOk (t : List (String × List String)) : Bool :=
-  !t.isEmpty && t.all fun k => pyxSrandFirst k.2 && k.2.contains "rand"
+  !t.isEmpty && t.all fun k => pyxSrandFirst k.2 && k.2.contains "rand" &&
+    k.2.all fun e => e == "srand:seed" || e == "rand"
 
 /-- the generators the property quantifies over -/
 def expectedGenerators : List String :=
